@@ -456,6 +456,8 @@ where
                 A::default_or_panic(),
             ),
             ChunkClass::NonDummy(mut chunk) => {
+                let original = chunk.raw;
+
                 while let Some(next_chunk) = chunk.next() {
                     chunk = next_chunk;
 
@@ -470,7 +472,15 @@ where
                 }
 
                 // there is no chunk that fits, we need a new chunk
-                chunk.append_for(*layout)
+                match chunk.append_for(*layout) {
+                    Ok(new_chunk) => Ok(new_chunk),
+                    Err(error) => {
+                        // The request failed: stay in the chunk we started in. A collection that is
+                        // still being filled there (`MutBumpVec`, ...) finalises against the current chunk.
+                        self.chunk.set(original);
+                        Err(error)
+                    }
+                }
             }
         }?;
 
